@@ -32,9 +32,13 @@ func (deb *Deb) CheckDebsig(validKeys openpgp.EntityList, sigType string) (signe
 	if err != nil {
 		return nil, fmt.Errorf("unable to find signed data: %v", err)
 	}
-	binaryFlag.Data.Seek(0, 0)
-	control.Data.Seek(0, 0)
-	data.Data.Seek(0, 0)
-	signedData := io.MultiReader(binaryFlag.Data, control.Data, data.Data)
-	return openpgp.CheckDetachedSignature(validKeys, signedData, sig.Data)
+	/* Read every member through a reader of its own: the readers in
+	 * ArContent are the ones Deb.Data decompresses from, and moving them
+	 * would cut the payload short (or, after a second check, silently hand
+	 * out other bytes than the ones verified here). */
+	whole := func(entry *ArEntry) io.Reader {
+		return io.NewSectionReader(entry.Data, 0, entry.Data.Size())
+	}
+	signedData := io.MultiReader(whole(binaryFlag), whole(control), whole(data))
+	return openpgp.CheckDetachedSignature(validKeys, signedData, whole(sig))
 }
